@@ -1,8 +1,14 @@
 package main
 
 import (
+	"context"
+	"net"
+
+	gws "github.com/gobwas/ws"
+
 	"encoding/json"
 	"fmt"
+	"github.com/VolantMQ/volantmq/transport"
 	"io"
 	"time"
 
@@ -23,6 +29,10 @@ type c19Case struct {
 	Frag    bool   `json:"frag,omitempty"`  // PINGREQs only, every segment ends in the MIDDLE of a packet: "C0", then "00 C0" at each send time
 	Horizon int    `json:"horizon"`
 	CT      int    `json:"ct,omitempty"`
+	// kind "conn": the socket is opened at a listener of the whole server: "tcp", "ws" (upgraded to WebSocket, then
+	// silent), "wsraw" (a TCP connection to the WebSocket listener that never sends its upgrade request); "": handed to
+	// the session manager directly
+	Via string `json:"via,omitempty"`
 }
 
 type c19Obs struct {
@@ -46,7 +56,7 @@ func (p *c19Prop) Parallel() int { return 24 }
 func (p *c19Prop) Gen(r *Rng, i int, tier string) interface{} {
 	if i%6 == 5 {
 		ct := 1 + r.Intn(2)
-		return &c19Case{Kind: "conn", CT: ct, Horizon: ct*1500 + 2500}
+		return &c19Case{Kind: "conn", CT: ct, Horizon: ct*1500 + 2500, Via: []string{"", "", "tcp", "ws", "wsraw"}[r.Intn(5)]}
 	}
 	c := &c19Case{Kind: "keep", K: []int{1, 2, 2, 3, 0}[r.Intn(5)]}
 	if r.Chance(30) {
@@ -91,9 +101,70 @@ func (p *c19Prop) Decode(raw json.RawMessage) (interface{}, error) {
 	return c, json.Unmarshal(raw, c)
 }
 
+func (p *c19Prop) runConnVia(c *c19Case) interface{} {
+	obs := &c19Obs{}
+	_, srv, cleanup, msg := newLisServerCT(c.CT)
+	if msg != "" {
+		obs.Err = msg
+		return obs
+	}
+	defer cleanup.f()
+	defer func() { _ = srv.Shutdown() }()
+	port := freePort()
+	var lerr error
+	if c.Via == "tcp" {
+		lerr = srv.ListenAndServe(transport.NewConfigTCP(&transport.Config{AuthManager: cleanup.am, Host: "127.0.0.1", Port: port}))
+	} else {
+		lerr = srv.ListenAndServe(transport.NewConfigWS(&transport.Config{AuthManager: cleanup.am, Host: "127.0.0.1", Port: port}))
+	}
+	if lerr != nil {
+		obs.Err = "listener: " + lerr.Error()
+		return obs
+	}
+	var cn net.Conn
+	var err error
+	deadline := time.Now().Add(3 * time.Second)
+	var t0 time.Time
+	for {
+		t0 = time.Now()
+		if c.Via == "ws" {
+			d := gws.Dialer{Protocols: []string{"mqtt"}, Timeout: 2 * time.Second}
+			cn, _, _, err = d.Dial(context.Background(), "ws://127.0.0.1:"+port+"/")
+		} else {
+			cn, err = net.DialTimeout("tcp", "127.0.0.1:"+port, 2*time.Second)
+		}
+		if err == nil || time.Now().After(deadline) {
+			break
+		}
+		time.Sleep(20 * time.Millisecond)
+	}
+	if err != nil {
+		obs.Err = "dial: " + err.Error()
+		return obs
+	}
+	defer cn.Close()
+	_ = cn.SetReadDeadline(t0.Add(time.Duration(c.Horizon) * time.Millisecond))
+	buf := make([]byte, 64)
+	for {
+		_, err := cn.Read(buf)
+		if err == nil {
+			continue // a WebSocket close frame, an HTTP answer: what counts is the end of the connection
+		}
+		if ne, ok := err.(net.Error); ok && ne.Timeout() {
+			return obs
+		}
+		obs.Closed = true
+		obs.ClosedAt = int(time.Since(t0) / time.Millisecond)
+		return obs
+	}
+}
+
 func (p *c19Prop) Run(ci interface{}) interface{} {
 	c := ci.(*c19Case)
 	obs := &c19Obs{}
+	if c.Kind == "conn" && c.Via != "" {
+		return p.runConnVia(c)
+	}
 	opts := BrokerOpts{KeepAliveForce: c.Force, KeepAlivePeriod: c.Period}
 	if c.Kind == "conn" {
 		opts.ConnectTimeout = c.CT
